@@ -290,10 +290,26 @@ def gand(a, b):
 def gnot(a): return (not a) if isinstance(a, bool) else z3.Not(a)
 
 
+def _conj(a): return list(a.children()) if z3.is_and(a) else [a]
+
+
+def _compl(x, y):
+    return (z3.is_not(x) and x.arg(0).eq(y)) or (z3.is_not(y) and y.arg(0).eq(x))
+
+
 def gor(a, b):
     if a is True or b is True: return True
     if a is False: return b
     if b is False: return a
+    if a.eq(b): return a
+    # (g and c) or (g and not c) == g : the two arms of a branch meeting again (keeps guards from growing with every diamond)
+    la, lb = _conj(a), _conj(b)
+    if len(la) == len(lb):
+        diff = [k for k in range(len(la)) if not la[k].eq(lb[k])]
+        if len(diff) == 1 and _compl(la[diff[0]], lb[diff[0]]):
+            rest = [x for k, x in enumerate(la) if k != diff[0]]
+            if not rest: return True
+            return rest[0] if len(rest) == 1 else z3.And(*rest)
     return z3.Or(a, b)
 
 
@@ -489,6 +505,13 @@ def icmp_v(pred, a, b, w):
     if pred == 'eq':
         if a.hi < b.lo or a.lo > b.hi: return False
         if a.lo == a.hi == b.lo == b.hi: return True
+        # (c ? k1 : k2) == k  ->  c / not c  (merged return values compared with a constant)
+        for x, y in ((a, b), (b, a)):
+            if y.lo == y.hi and z3.is_app_of(x.e, z3.Z3_OP_ITE):
+                c, t, f = x.e.children()
+                if z3.is_int_value(t) and z3.is_int_value(f):
+                    tv, fv = t.as_long() == y.lo, f.as_long() == y.lo
+                    return True if tv and fv else False if not tv and not fv else c if tv else z3.Not(c)
         return a.e == b.e
     if pred == 'ne': return gnot(icmp_v('eq', a, b, w))
     if pred == 'ult': return True if a.hi < b.lo else False if a.lo >= b.hi else a.e < b.e
